@@ -153,6 +153,8 @@ type classInvariant struct {
 
 var classInvariants = []classInvariant{
 	{"core.Cursor", "pos", 0, []string{"(*core.Cursor).CheckAppend", "(*core.Cursor).CheckCommand"}},
+	// the undo position of a line: 0 = on the newest state, k = k-1 steps behind it; never negative
+	{"history.lineHistory", "pos", 0, nil},
 }
 
 func (ci classInvariant) isNormaliser(in ssa.Instruction) bool {
@@ -408,9 +410,6 @@ var reviewedNonneg = map[string]string{
 	"(*history.Sources).Current:index#0":               "class invariant of history.Sources maintained by its writers and checked by rule C01.source-pos: names is empty (then list is empty and the function returned above) or 0 <= sourcePos < len(names)",
 	"(*history.Sources).getHistoryLineChanges:index#0": "same invariant (C01.source-pos); Current() returned non-nil just above, so names is not empty",
 	"history.Complete:index#0":                         "same invariant (C01.source-pos); len(h.list) != 0 was tested at entry",
-	"(*history.Sources).Save:slice#0":                  "line.pos was clamped to len(line.items) two statements above, and lineHistory.pos is never negative (every store: 0, len(items), pos+1, or pos-1 under `pos < 1` returned)",
-	"(*history.Sources).Undo:index#2":                  "line.pos was just incremented from a non-negative value and the function returned if it exceeded len(line.items): 1 <= pos <= len(items)",
-	"(*history.Sources).Redo:index#0":                  "pos >= 1 is tested just above; pos <= len(items) is an invariant of lineHistory that is temporal (Save truncates items to len-pos and the deferred Reset zeroes pos unless undoing, which Save never runs under because Undo/Redo set skip with it): NOT a local argument — backed only by the undo/redo triage (4 000 random edit sequences, DESIGN §13)",
 	"color.Trim:slice#0":                               "maxPrintableLength is clamped to >= 0 before the loop, which only adds indices[1]-indices[0] of regexp match pairs (ordered: regexp guarantee), and to <= len(input) just above",
 	"strutil.switchBoolean:slice#0":                    "bpos is indexes[1] of a match of `option` on word: 0 <= bpos <= len(word) (regexp guarantee)",
 	"(*core.Line).SelectBlankWord:postcondition#6":     "bpos starts at pos <= Len-1 (clamped, then decremented when it equals Len) and only decreases: bpos+1 <= Len",
@@ -459,9 +458,6 @@ var reviewedBounds = map[string]string{
 	"(*history.Sources).Current:index#0":                 "class invariant of history.Sources maintained by its writers and checked by rule C01.source-pos: names is empty (then list is empty and the function returned above) or 0 <= sourcePos < len(names)",
 	"(*history.Sources).getHistoryLineChanges:index#0":   "same invariant (C01.source-pos); Current() returned non-nil just above, so names is not empty",
 	"history.Complete:index#0":                           "same invariant (C01.source-pos); len(h.list) != 0 was tested at entry",
-	"(*history.Sources).Save:slice#0":                    "line.pos was clamped to len(line.items) two statements above, and lineHistory.pos is never negative (every store: 0, len(items), pos+1, or pos-1 under `pos < 1` returned)",
-	"(*history.Sources).Undo:index#2":                    "line.pos was just incremented from a non-negative value and the function returned if it exceeded len(line.items): 1 <= pos <= len(items)",
-	"(*history.Sources).Redo:index#0":                    "pos >= 1 is tested just above; pos <= len(items) is an invariant of lineHistory that is temporal (Save truncates items to len-pos and the deferred Reset zeroes pos unless undoing, which Save never runs under because Undo/Redo set skip with it): NOT a local argument — backed only by the undo/redo triage (4 000 random edit sequences, DESIGN §13)",
 	"color.Trim:slice#0":                                 "[upper proved] maxPrintableLength is clamped to >= 0 before the loop, which only adds indices[1]-indices[0] of regexp match pairs (ordered: regexp guarantee), and to <= len(input) just above",
 	"strutil.switchBoolean:slice#0":                      "bpos is indexes[1] of a match of `option` on word: 0 <= bpos <= len(word) (regexp guarantee)",
 	"(*display.Engine).hlReset:slice#2":                  "i is a range index of the slice regions had at loop entry; the reslices inside the loop keep its capacity, and a slice expression is bounded by the capacity, not the length: i <= cap(regions)",
